@@ -648,9 +648,9 @@ def run(tier):
     q = tier == 'quick'
     rng = ck.rng
     adj_scan, adj_e2e = gen_adjacency(rng)
-    gen = (adj_scan + adj_e2e + gen_scan_random(rng, 1500 if q else 60000) + gen_structured(rng, 350 if q else 12000) +
-           gen_cache(rng, 120 if q else 4000) + gen_logj(rng, 60 if q else 1500) + gen_edge(rng, 120 if q else 4000) +
-           gen_known(rng, 40 if q else 400))
+    gen = (adj_scan + adj_e2e + gen_scan_random(rng, 1500 if q else 200000) + gen_structured(rng, 350 if q else 40000) +
+           gen_cache(rng, 120 if q else 12000) + gen_logj(rng, 60 if q else 4000) + gen_edge(rng, 120 if q else 12000) +
+           gen_known(rng, 40 if q else 1000))
     try:
         fill_tables(ck, mexe, iexe, gen)
     except RuntimeError as e:
